@@ -29,6 +29,17 @@ Accept(e) ==
          /\ REq(RDy(e.eval), Eval(c, x))                                        \* Horner value of the polynomial it denotes
          /\ REq(RDy(e.evar), Evar(c, x))                                        \* ... in the other coefficient order
          /\ SameR(Rs(e.swapped), Rev(c)) /\ SameR(Rs(e.swapped2), c)            \* order reversal is an involution
+    \* precision: coefficients A_i + m_i * 2^-K (K just below the mantissa width of the element type), integer x:
+    \* the exact value is H + M * 2^-K with the integer Horner values of the two parts; anything computed in a narrower
+    \* type loses M.  Logged values are <<integer part, (value - integer part) * 2^K, exactly-an-integer flag>>
+    [] e.f = "polyx" ->
+         LET n == Len(e.A)
+             HornerI(c) == LET RECURSIVE H(_, _)
+                               H(i, acc) == IF i = 0 THEN acc ELSE H(i - 1, acc * e.x + c[i]) IN H(n, 0)     \* sum c[i] x^(i-1)
+             RevI(c) == [i \in 1..n |-> c[n + 1 - i]] IN
+         /\ e.eval = <<HornerI(e.A), HornerI(e.m), 1>>
+         /\ e.evar = <<HornerI(RevI(e.A)), HornerI(RevI(e.m)), 1>>
+    [] e.f = "trajx" -> e.pos0 = <<e.p[1], e.p[2], 1>> /\ e.vel0 = <<e.v[1], e.v[2], 1>>
     [] OTHER -> FALSE
 
 TraceInit == l = 1
